@@ -41,7 +41,7 @@ CLAUSES = {
 
 
 def proof_files(tier):
-    return ["C17_tac.v", "C17_sums.v", "C17_fits.v", "C17_general.v", "C17_corr.v", "C17.v"]
+    return ["C17_whnf.v", "C17_tac.v", "C17_sums.v", "C17_fits.v", "C17_general.v", "C17_corr.v", "C17_main.v", "C17.v"]
 
 
 # ------------------------------------------------------------------ data generators
